@@ -629,7 +629,7 @@ func ioLines(L *LState) int {
 	return 1
 }
 
-var ioOpenOpions = []string{"r", "rb", "w", "wb", "a", "ab", "r+", "rb+", "w+", "wb+", "a+", "ab+"}
+var ioOpenOpions = []string{"r", "rb", "w", "wb", "a", "ab", "r+", "rb+", "r+b", "w+", "wb+", "w+b", "a+", "ab+", "a+b"}
 
 func ioOpenFile(L *LState) int {
 	path := L.CheckString(1)
@@ -640,7 +640,11 @@ func ioOpenFile(L *LState) int {
 	perm := 0600
 	writable := true
 	readable := true
-	switch ioOpenOpions[L.CheckOption(2, ioOpenOpions)] {
+	opt := ioOpenOpions[L.CheckOption(2, ioOpenOpions)]
+	if len(opt) == 3 && opt[1] == '+' {
+		opt = opt[:1] + "b+" // "r+b" is another spelling of "rb+"
+	}
+	switch opt {
 	case "r", "rb":
 		mode = os.O_RDONLY
 		writable = false
